@@ -30,6 +30,7 @@ type regStep struct {
 	Method string `json:"method,omitempty"`
 	Route  core.B `json:"route"`
 	Intent string `json:"intent,omitempty"`                       // generator's intent (statistics only; never used by the oracle)
+	Hdr    bool   `json:"headers_after_registration,omitempty"`   // Flame level: once accepted, the route is given a header constraint (which changes nothing about what is a duplicate of what)
 	Arg    string `json:"routes_extra_method_argument,omitempty"` // Flame level: registered with Routes(text, Method, Arg, handler): Method is a comma list whose items are trimmed, Arg is one more method name given as it is
 	Split  int    `json:"group_split,omitempty"`                  // Flame level: >0 = the text is declared as Group(text[:Split]) { Route(text[Split:]) }; the registered route is the plain concatenation
 }
@@ -262,6 +263,64 @@ func genDeepBinds(rng *rand.Rand, c *regCase, flame bool) {
 	}
 }
 
+// genManyBinds: more distinct bind names along one route than any fixed-size bookkeeping holds, then one of
+// the earliest names again (in a placeholder, a regex segment, a match-all or an optional segment).
+func genManyBinds(rng *rand.Rand, c *regCase, flame bool) {
+	n := []int{15, 16, 17, 18, 24, 33}[rng.Intn(6)]
+	rt := &rmodel.Route{}
+	names := []string{}
+	for len(names) < n {
+		if rng.Intn(4) == 0 && len(names)+3 <= n {
+			k := len(names)
+			rt.Segs = append(rt.Segs, rmodel.Segment{Elems: []rmodel.Elem{{Bind: fmt.Sprintf("p%d", k)}, {Lit: "-"}, {Bind: fmt.Sprintf("p%d", k+1)}, {Lit: "."}, {Bind: fmt.Sprintf("p%d", k+2)}}})
+			names = append(names, "", "", "")
+			continue
+		}
+		rt.Segs = append(rt.Segs, rmodel.Segment{Elems: []rmodel.Elem{{Bind: fmt.Sprintf("p%d", len(names))}}})
+		names = append(names, "")
+	}
+	again := fmt.Sprintf("p%d", rng.Intn(3))
+	if rng.Intn(3) == 0 {
+		again = fmt.Sprintf("p%d", n) // a fresh name: well-formed
+	}
+	last := []rmodel.Segment{
+		{Elems: []rmodel.Elem{{Bind: again}}},
+		{Elems: []rmodel.Elem{{Params: []rmodel.Param{{Name: again, Value: "[0-9]+", IsRegex: true, Blanks: 1}}}}},
+		{Elems: []rmodel.Elem{{Params: []rmodel.Param{{Name: again, Value: "**", Blanks: 1}}}}},
+		{Optional: true, Elems: []rmodel.Elem{{Bind: again}}},
+	}[rng.Intn(4)]
+	rt.Segs = append(rt.Segs, last)
+	if rng.Intn(2) == 0 && !last.Optional {
+		rt.Segs = append(rt.Segs, rmodel.Segment{Elems: []rmodel.Elem{{Lit: "end"}}})
+	}
+	st := regStep{Intent: "many binds", Route: core.B(rt.Render())}
+	if flame {
+		st.Method = "GET"
+	}
+	c.Steps = append(c.Steps, st)
+}
+
+// genManyLeaves: 30-45 leaves under one node, then a route that is rightly refused there (the short form of its
+// optional segment is taken), then the well-formed route it resembles - which conflicts with nothing.
+func genManyLeaves(rng *rand.Rand, c *regCase, flame bool) {
+	c.Mode = "continue"
+	add := func(txt, intent string) {
+		st := regStep{Intent: intent, Route: core.B(txt)}
+		if flame {
+			st.Method = "GET"
+		}
+		c.Steps = append(c.Steps, st)
+	}
+	add("/api/v1", "many leaves")
+	for i, n := 0, 30+rng.Intn(16); i < n; i++ {
+		add(fmt.Sprintf("/api/v1/res%d", i), "many leaves")
+	}
+	add("/api/v1/?status", "duplicate via short form")
+	add("/api/v1/status", "many leaves")
+	add("/api/v1/res3", "duplicate")
+	add("/api/v1/{id}", "many leaves")
+}
+
 func genRegCase(rng *rand.Rand) *regCase {
 	c := &regCase{Level: "tree", Mode: "restart"}
 	if rng.Intn(2) == 0 {
@@ -271,8 +330,15 @@ func genRegCase(rng *rand.Rand) *regCase {
 	if flame {
 		c.Level = "flame"
 	}
-	if rng.Intn(8) == 0 {
+	switch rng.Intn(40) {
+	case 0, 1, 2, 3, 4:
 		genDeepBinds(rng, c, flame)
+		return c
+	case 5, 6:
+		genManyBinds(rng, c, flame)
+		return c
+	case 7:
+		genManyLeaves(rng, c, flame)
 		return c
 	}
 	cfg := gen.Cfg{AllowRoot: true}
@@ -302,6 +368,7 @@ func genRegCase(rng *rand.Rand) *regCase {
 				}
 			}
 			st.Method = meths[rng.Intn(len(meths))]
+			st.Hdr = rng.Intn(5) == 0
 			if rng.Intn(25) == 0 {
 				st.Method = []string{"BREW", "", " GET", "GET ", "G\xc9T", "**", "GET,POST"}[rng.Intn(7)]
 				st.Intent = "unknown method"
@@ -508,7 +575,12 @@ func judgeRegCase(w *core.W, c *regCase) {
 			w.Count("declared-through-routes-with-method-argument")
 			_, pan = flameRegisterArgs(f, true, st.Method, []string{st.Arg}, txt, i, &hit, &seen)
 		} else if flame {
-			_, pan = flameRegister(f, st.Method, txt, i, &hit, &seen)
+			var frt *flamego.Route
+			frt, pan = flameRegister(f, st.Method, txt, i, &hit, &seen)
+			if pan == nil && st.Hdr && frt != nil {
+				frt.Headers("X-Reach", "^v$")
+				w.Count("headers-after-registration")
+			}
 		} else {
 			var ir *route.Route
 			ir, implErr, pan = safeParse(parser, txt)
@@ -601,7 +673,7 @@ func judgeRegCase(w *core.W, c *regCase) {
 				if flame {
 					hit, seen, nf = -1, nil, false
 					rec := httptest.NewRecorder()
-					req := &http.Request{Method: a.method, URL: &url.URL{Path: path}, Header: http.Header{}}
+					req := &http.Request{Method: a.method, URL: &url.URL{Path: path}, Header: http.Header{"X-Reach": {"v"}}} // satisfies the constraint some routes were given after registration
 					var pan interface{}
 					func() {
 						defer func() { pan = recover() }()
